@@ -7,7 +7,7 @@ use vmodel::val::GenCfg;
 
 pub fn c01(ctx: &Ctx, subj: &dyn DynSubject, ty: &Ty, rep: &mut Report) {
     let strat = strategy_for(ctx, ty, GenCfg::default());
-    crate::runner::run_cases(ctx, subj, rep, strat, ctx.cases, &|v, log| {
+    crate::runner::run_cases_pre(ctx, subj, rep, &sweep_vals(ctx, ty), strat, ctx.cases, &|v, log| {
         self_check(subj, v)?;
         let s = classify(ctx, ty, v, log);
         log.nontrivial = s.nonempty_seq || s.nonfirst_variant || s.nondefault_prim;
@@ -77,7 +77,7 @@ pub fn c02(ctx: &Ctx, subj: &dyn DynSubject, ty: &Ty, rep: &mut Report) {
         return;
     }
     let strat = strategy_for(ctx, ty, GenCfg::default());
-    crate::runner::run_cases(ctx, subj, rep, strat, ctx.cases, &|v, log| {
+    crate::runner::run_cases_pre(ctx, subj, rep, &sweep_vals(ctx, ty), strat, ctx.cases, &|v, log| {
         self_check(subj, v)?;
         let s = classify(ctx, ty, v, log);
         let (bytes, events) = traced(subj, v)?;
@@ -109,7 +109,7 @@ pub fn c02(ctx: &Ctx, subj: &dyn DynSubject, ty: &Ty, rep: &mut Report) {
 
 pub fn c03(ctx: &Ctx, subj: &dyn DynSubject, ty: &Ty, rep: &mut Report) {
     let strat = strategy_for(ctx, ty, GenCfg::default());
-    crate::runner::run_cases(ctx, subj, rep, strat, ctx.cases, &|v, log| {
+    crate::runner::run_cases_pre(ctx, subj, rep, &sweep_vals(ctx, ty), strat, ctx.cases, &|v, log| {
         self_check(subj, v)?;
         let s = classify(ctx, ty, v, log);
         let (bytes, events) = traced(subj, v)?;
